@@ -188,7 +188,7 @@ class Sources(Sub):
 @st.composite
 def ts_case(draw):
     a = draw(S.zones())
-    u = draw(st.one_of(S.instant_near_transition(a), S.uniform_instant(), st.integers(-3 * 10**15, 5 * 10**15)))
+    u = draw(st.one_of(S.instant_near_transition(a), S.uniform_instant(), S.uni(-3 * 10**15, 5 * 10**15)))
     return {"a": a, "b": draw(S.zones()), "u": u, "off": draw(S.fixed_offset_seconds())}
 
 
